@@ -254,7 +254,7 @@ func collectSites(f *File, from int) []tokSite {
 
 var c13Auto = AutoCfg{"checkitem": {VarName: "VAR_RESULT"}, "specialvar": {ArgPos: new(int)}}
 
-var c13ValWords = []string{"1", "2", "7", "0x10", "-3", "FLAG_BASE", "VAR_BASE", "ITEM_X", "ITEM_NONE", "step_end", "+", "-", "*", "|", "&"}
+var c13ValWords = []string{"true", "false", "TRUE", "1", "2", "7", "0x10", "-3", "FLAG_BASE", "VAR_BASE", "ITEM_X", "ITEM_NONE", "step_end", "+", "-", "*", "|", "&"}
 
 type cdef struct {
 	name   string
@@ -313,7 +313,9 @@ func constify(t *rapid.T, f *File, auto AutoCfg) []cdef {
 					d.paren = true
 				}
 			}
-			d.single = len(v) == 1 && tokClass(v[0]) == 'w'
+			// (a boolean keyword cannot be written where the grammar wants an identifier - a mart item -, so the
+			// written-out twin of such a use does not exist)
+			d.single = len(v) == 1 && tokClass(v[0]) == 'w' && !strings.EqualFold(v[0], "true") && !strings.EqualFold(v[0], "false")
 			defs = append(defs, d)
 		}
 	}
